@@ -230,6 +230,11 @@ pub fn csi_cases(thorough: bool, out: &mut Vec<Case>) {
                         if !thorough && l.len() > 1 && (ti > 0 || !matches!(inter, b"" | b" " | b"?")) {
                             continue;
                         }
+                        // a document of 65536 rows costs a third of a second and every heap-cap hit a worker restart: in the quick tier 65536 and
+                        // 2147483599 only as single parameter
+                        if !thorough && l.len() > 1 && (l.contains(&65536) || l.contains(&2_147_483_599)) {
+                            continue;
+                        }
                         // ice / diz / unknown extensions are the very same loader as ans: one prefix each in the quick tier
                         if !thorough && matches!(name, "ice" | "diz" | "xyz") && prefix.len() != 90 {
                             continue;
@@ -252,8 +257,8 @@ pub fn csi_cases(thorough: bool, out: &mut Vec<Case>) {
                         }
                         v.push(fin);
                         // a character, then a way down: line feed (which allocates every row down to the caret: only for plain
-                        // sequences of .ans) or index (ESC D)
-                        v.extend_from_slice(if ti == 0 && inter.is_empty() && prefix.is_empty() { &b"x\r\ny"[..] } else { &b"x\x1bDy"[..] });
+                        // single-parameter sequences of .ans without prefix) or index (ESC D)
+                        v.extend_from_slice(if ti == 0 && inter.is_empty() && prefix.is_empty() && l.len() <= 1 { &b"x\r\ny"[..] } else { &b"x\x1bDy"[..] });
                         out.push(Case { target: t, src: Src::Raw(Bytes(v)), inner: vec![], muts: vec![] });
                     }
                 }
